@@ -312,6 +312,36 @@ func (sp *spec) build() (func(), func(x *vsched.Exec) (string, error)) {
 				return
 			}
 			result, runErr = exec(ctx, r, sp.call, opts)
+		case "sharedlambda":
+			// ONE *compose.Lambda value added as two nodes (under different keys, names and output keys): each
+			// execution unit still has its own run info
+			l := compose.InvokableLambda(func(ctx context.Context, in gprog.Val) (gprog.Val, error) {
+				if sp.yields {
+					vsched.Yield()
+				}
+				return gprog.Val{"v": gprog.Canon(in)}, nil
+			})
+			g := compose.NewGraph[gprog.Val, gprog.Val]()
+			g.AddLambdaNode("a", l, compose.WithNodeName("a"))
+			g.AddLambdaNode("b", l, compose.WithNodeName("b"))
+			g.AddEdge(compose.START, "a")
+			g.AddEdge("a", "b")
+			g.AddEdge("b", compose.END)
+			outA := gprog.Val{"v": in}
+			outB := gprog.Val{"v": gprog.Canon(outA)}
+			units = append(units, unit{name: "a", start: in, end: gprog.Canon(outA), leaf: "a"})
+			units = append(units, unit{name: "b", start: gprog.Canon(outA), end: gprog.Canon(outB), leaf: "b"})
+			units = append(units, unit{name: "G0", start: in, end: gprog.Canon(outB)})
+			if sp.desig == "leaves" {
+				designate("Da", "a", func(u unit) bool { return u.name == "a" })
+				designate("Db", "b", func(u unit) bool { return u.name == "b" })
+			}
+			r, err := g.Compile(ctx, compose.WithGraphName("G0"))
+			if err != nil {
+				runErr = err
+				return
+			}
+			result, runErr = exec(ctx, r, sp.call, opts)
 		case "interrupt":
 			// node a asks to be interrupted (and re-run later): its execution and the graph's end with an error-type event
 			g := compose.NewGraph[gprog.Val, gprog.Val]()
@@ -584,7 +614,7 @@ func eventsOf(evs []event, h string) []event {
 // concatenation of map chunks (a drained stream of map chunks renders as "stream:c1+c2"; the chunk
 // boundaries are not the unit's business, so the union of the chunks is compared).
 func payloadOK(got, want, mode string) bool {
-	if got == want || got == "<closed>" {
+	if got == want || got == "<closed>" || want == "*" {
 		return true
 	}
 	if strings.HasPrefix(got, "stream:") {
@@ -659,7 +689,7 @@ func main() {
 	if !quick {
 		bounds = []int{0, 1, 2, 3}
 	}
-	shapes := []string{"fan2", "nested", "tools", "interrupt", "tools-unknown", "fan3"}
+	shapes := []string{"fan2", "nested", "tools", "interrupt", "tools-unknown", "sharedlambda", "fan3"}
 	for _, shape := range shapes {
 		desigs := []string{"", "leaves"}
 		if shape == "nested" {
@@ -689,7 +719,7 @@ func main() {
 									if mod != "drain" && !(undes >= 2) && !(desig != "" && undes == 1) {
 										continue
 									}
-									if quick && shape == "tools-unknown" && !(undes <= 1 && !raw && mod == "drain") {
+									if quick && (shape == "tools-unknown" || shape == "sharedlambda") && !(undes <= 1 && !raw && mod == "drain") {
 										continue
 									}
 									if quick && shape == "fan3" && !(undes == 3 && separate && desig == "leaves") {
